@@ -31,6 +31,6 @@ Judge ==
         m   == ModelObs(a)
     IN PrintT(<<"VERDICT", ToJson(
          [id |-> rec.id, C01 |-> V_C01(a, o, m), C02 |-> V_C02(a, o),
-          C03 |-> V_C03(a, o),
+          C03 |-> V_C03(a, o), C14 |-> V_C14(a, o, m), C18 |-> V_C18(a, o),
           conf |-> IF Conforms(o, m) THEN "conforms" ELSE DriftWhere(o, m)])>>)
 =============================================================================
